@@ -126,8 +126,11 @@ pub(super) fn execute_aggregate<'a, S: GraphSnapshot + 'a>(
 
                         if saw_float {
                             Value::Float(float_sum)
+                        } else if let Ok(sum) = i64::try_from(int_sum) {
+                            Value::Int(sum)
                         } else {
-                            Value::Int(int_sum as i64)
+                            // Same overflow rule as integer `+`: widen to float instead of wrapping.
+                            Value::Float(float_sum)
                         }
                     }
                     AggregateFunction::SumDistinct(expr) => {
@@ -165,8 +168,11 @@ pub(super) fn execute_aggregate<'a, S: GraphSnapshot + 'a>(
 
                         if saw_float {
                             Value::Float(float_sum)
+                        } else if let Ok(sum) = i64::try_from(int_sum) {
+                            Value::Int(sum)
                         } else {
-                            Value::Int(int_sum as i64)
+                            // Same overflow rule as integer `+`: widen to float instead of wrapping.
+                            Value::Float(float_sum)
                         }
                     }
                     AggregateFunction::Avg(expr) => {
